@@ -355,7 +355,7 @@ def gen_floor(rng, idx, big=False, groups=True, congested=False, serial=False):
     batches = (rng.random() < 0.25) and not serial
 
     def mk_source():
-        budget = rng.choice(['inf', 'inf', 'def', '1', '3', '6', '12'])
+        budget = rng.choice(['inf', 'inf', 'def', '1', '3', '6', '12', '0'])
         cyc = rng.choice([2, 4, 4, 8, 8, 16]) if budget in ('inf', 'def') else rng.choice([0, 0, 2, 4, 8])
         return B.dev('source', cyc=cyc, budget=budget, pval=rng.choice([0, 0, 5, 7, -4]), pqual=rng.choice([1, 1, 3]),
                      batchof=(rng.choice([0, 0, 2, 3, -1]) if batches else 0))
@@ -762,7 +762,7 @@ def gen_floor_maint(rng, idx, big=False):
     L.append(['asset', 'maint', 'cap=' + rng.choice(['inf', '1', '2']), 'value=0'])
     for i, d in enumerate(procs):
         L.append(['target', str(i), f'dev={d}', 'start=-', 'end=-',
-                  'params=' + ','.join(f'{tag}:{rng.choice([4, 8, 12, 20])}:{rng.choice([0, 1])}:{rng.choice([0, 3])}' for tag in range(2))])
+                  'params=' + ','.join(f'{tag}:{rng.choice([0, 4, 8, 12, 20])}:{rng.choice([0, 1])}:{rng.choice([0, 3])}' for tag in range(2))])
     sched = []
     t = rng.choice([2, 6, 10])
     for _ in range(rng.randint(3, 9)):
@@ -935,14 +935,17 @@ def gen_floor_pools(rng, idx, big=False):
     L = _hdr(rng, idx)
     npools = rng.choice([2, 2, 3])
     for r in range(npools):
-        L.append(['res', str(r), str(rng.choice([0, 1, 1, 2]))])
+        L.append(['res', str(r), str(rng.choice([0, 1, 1, 2, 3, 4]))])
     B = FloorBuilder(rng)
     srcs = [B.dev('source', cyc=rng.choice([2, 4, 8]), budget=rng.choice(['inf', '5', '10'])) for _ in range(rng.choice([1, 2, 3]))]
     procs = []
+    # a third of the lines distribute the parts through a gate (a pass-through device that must not touch
+    # the pools while it looks for a taker)
+    gate = B.dev('gate', up=','.join(map(str, srcs)), pred='always') if rng.random() < 0.33 else None
     for j in range(rng.choice([2, 3, 3, 4])):
         pools = rng.sample(range(npools), rng.choice([1, 2, 2, npools]))
         res = ';'.join(f'{r}:{rng.choice([0, 1, 1, 2])}' for r in pools)
-        procs.append(B.dev('processor', up=','.join(map(str, rng.sample(srcs, rng.randint(1, len(srcs))))),
+        procs.append(B.dev('processor', up=(str(gate) if gate is not None else ','.join(map(str, rng.sample(srcs, rng.randint(1, len(srcs)))))),
                            cyc=rng.choice([0, 4, 8, 12]), res=res, nshut=1, nrest=0))
     B.dev('sink', up=','.join(map(str, procs)), cyc=rng.choice([0, 0, 4]), collect=0)
     L += B.L
@@ -1145,6 +1148,27 @@ def gen_floor_budget(rng, idx, big=False):
     return L
 
 
+def gen_floor_rework(rng, idx, big=False):
+    """Rework loop: source -> buffer -> machine (its finish callback adds value) -> two complementary gates:
+    'done' (value >= limit) to the sink, 'rework' (value < limit) back into the buffer; low traffic, so the
+    same part meets the same gate again with a different value and nothing else in between."""
+    L = _hdr(rng, idx)
+    add = rng.choice([3, 5])
+    limit = add * rng.choice([2, 2, 3])
+    L.append(['asset', 'dev', 'source', f'cyc={rng.choice([8, 16, 40])}', f'budget={rng.choice(["2", "3", "5", "inf"])}', 'pval=0'])
+    L.append(['asset', 'dev', 'buffer', 'up=0', f'cap={rng.choice(["inf", "4"])}', 'delay=0'])
+    L.append(['asset', 'dev', 'processor', 'up=1', f'cyc={rng.choice([1, 2, 4])}', f'fincb=-:0:{add}:-'])
+    # the order in which the machine asks its two gates is the order of their construction
+    done, rework = (3, 4) if rng.random() < 0.5 else (4, 3)
+    for g in (3, 4):
+        L.append(['asset', 'dev', 'gate', 'up=2', f'pred=vge:{limit}' if g == done else f'pred=vlt:{limit}'])
+    L.append(['asset', 'dev', 'sink', f'up={done}', 'cyc=0', 'collect=1'])
+    L.append(['wire', '1', f'0,{rework}'])
+    L.append(['run', str(rng.choice([64, 96, 160]))])
+    L.append(['end'])
+    return L
+
+
 def gen_floor_nestbat(rng, idx, big=False):
     """corpus-only family (harness/corpus/floorn): nested groups whose batches cross group boundaries
     (known finding F14); nothing is generated"""
@@ -1154,7 +1178,7 @@ def gen_floor_nestbat(rng, idx, big=False):
 FAMILIES['floorn'] = gen_floor_nestbat
 FAMILIES.update({'floorpf': gen_floor_procfirst, 'floorm': gen_floor_maint, 'floorb': gen_floor_batch, 'floorg': gen_floor_groups,
                  'floorp': gen_floor_pools, 'floors': gen_floor_special, 'floorl': gen_floor_late,
-                 'floorr': gen_floor_reentrant, 'floori': gen_floor_idle, 'floorq': gen_floor_budget})
+                 'floorr': gen_floor_reentrant, 'floori': gen_floor_idle, 'floorq': gen_floor_budget, 'floorw': gen_floor_rework})
 
 
 # ------------------------------------------------------------------------ exhaustive enumerations
